@@ -375,3 +375,26 @@ define void @h() !dbg !6 {
 !7 = !DISubroutineType(types: !4)
 !8 = !{i32 2, !"Debug Info Version", i32 3}
 !9 = !DIBasicType(name: "int", size: 32, encoding: DW_ATE_signed)
+;;; ATOM md/di-compileunit-imports-macros
+!llvm.module.flags = !{!8}
+!llvm.dbg.cu = !{!0}
+!0 = distinct !DICompileUnit(language: DW_LANG_C_plus_plus, file: !1, emissionKind: FullDebug, enums: !2, retainedTypes: !9, globals: !2, imports: !3, macros: !5)
+!1 = !DIFile(filename: "a.cpp", directory: "/")
+!2 = !{}
+!3 = !{!4}
+!4 = !DIImportedEntity(tag: DW_TAG_imported_declaration, scope: !0, entity: !7, file: !1, line: 3)
+!5 = !{!6}
+!6 = !DIMacro(type: DW_MACINFO_define, line: 1, name: "M", value: "1")
+!7 = !DIBasicType(name: "int", size: 32, encoding: DW_ATE_signed)
+!8 = !{i32 2, !"Debug Info Version", i32 3}
+!9 = !{!7}
+;;; ATOM md/named-repeated-with-escaped-spellings
+!foo = !{!0}
+!\66oo = !{!1}
+!f\6Fo = !{!2}
+!foo = !{!0}
+!bar\20x = !{!1}
+!bar\20\78 = !{!2}
+!0 = !{!"a"}
+!1 = !{!"b"}
+!2 = !{!"c"}
